@@ -286,40 +286,26 @@ class SStr:
         n = self.length()
         if z3.is_true(z3.simplify(z3.And(a == 0, b == n))):
             return self
-        # scattered string: only cuts that the path condition places on piece boundaries / inside one piece
+        # scattered string: every piece contributes its intersection with [a, b)
         off = z3.IntVal(0)
-        spans = []
+        out = []
+        clamp = lambda x, ln: z3.If(x <= 0, z3.IntVal(0), z3.If(x >= ln, ln, x))
         for p in self.pieces:
             ln = z3.IntVal(len(p)) if isinstance(p, str) else p[1] - p[0]
-            spans.append((p, off, off + ln))
-            off = off + ln
-        for p, o0, o1 in spans:
-            if _valid(eng, z3.And(a >= o0, b <= o1)):
-                if isinstance(p, str):
-                    a0, b0 = z3.simplify(a - o0), z3.simplify(b - o0)
-                    if z3.is_int_value(a0) and z3.is_int_value(b0):
-                        return p[a0.as_long():b0.as_long()]
-                    raise Unsupported("symbolic cut inside a literal piece of a symbolic string")
-                return SStr.slice(p[0] + (a - o0), p[0] + (b - o0))
-        out, started = [], False
-        for p, o0, o1 in spans:
-            if not started:
-                if _valid(eng, a == o0):
-                    started = True
-                elif _valid(eng, a >= o1):
-                    continue
-                else:
-                    raise Unsupported("cut of a scattered symbolic string at an undetermined place")
-            if _valid(eng, b >= o1):
-                out.append(p)
-                if _valid(eng, b == o1):
-                    return SStr(out)
-                continue
+            a0, b0 = z3.simplify(clamp(a - off, ln)), z3.simplify(clamp(b - off, ln))
             if isinstance(p, str):
-                raise Unsupported("symbolic cut inside a literal piece of a symbolic string")
-            out.append((p[0], p[0] + (b - o0)))
-            return SStr(out)
-        raise Unsupported("cut of a scattered symbolic string at an undetermined place")
+                if not (z3.is_int_value(a0) and z3.is_int_value(b0)):
+                    if _valid(eng, z3.And(a <= off, b >= off + ln)):
+                        a0, b0 = z3.IntVal(0), z3.IntVal(len(p))
+                    elif _valid(eng, z3.Or(b <= off, a >= off + ln)):
+                        a0 = b0 = z3.IntVal(0)
+                    else:
+                        raise Unsupported("symbolic cut inside a literal piece of a symbolic string")
+                out.append(p[a0.as_long():b0.as_long()])
+            else:
+                out.append((p[0] + a0, p[0] + b0))
+            off = z3.simplify(off + ln)
+        return SStr(out)
 
     def __pyvc_getattr__(self, eng, name):
         if name in STR_METHODS:
